@@ -1,7 +1,273 @@
 package main
 
-import "adgverif/rules"
+import (
+	"encoding/json"
+	"fmt"
+	"os"
+	"os/exec"
+	"path/filepath"
+	"regexp"
+	"sort"
+	"strconv"
+	"strings"
 
+	"adgverif/an"
+	"adgverif/rules"
+)
+
+// applyUnifiedDiff applies a unified diff (git format) to the files under
+// repo and returns the new contents keyed by absolute file name.
+func applyUnifiedDiff(repo string, diff string) (overlay map[string][]byte, err error) {
+	overlay = map[string][]byte{}
+	lines := strings.Split(diff, "\n")
+	hunkRe := regexp.MustCompile(`^@@ -(\d+)(?:,(\d+))? \+(\d+)(?:,(\d+))? @@`)
+	var file string
+	var src []string
+	var out []string
+	pos := 0 // next unread line of src (0-based)
+	flush := func() {
+		if file == "" {
+			return
+		}
+		out = append(out, src[pos:]...)
+		overlay[filepath.Join(repo, file)] = []byte(strings.Join(out, "\n"))
+	}
+	for i := 0; i < len(lines); i++ {
+		l := lines[i]
+		switch {
+		case strings.HasPrefix(l, "--- "):
+			// next line is +++ b/<file>
+			if i+1 < len(lines) && strings.HasPrefix(lines[i+1], "+++ ") {
+				flush()
+				file = strings.TrimPrefix(strings.TrimPrefix(lines[i+1], "+++ "), "b/")
+				if file == "/dev/null" {
+					return nil, fmt.Errorf("file deletion not supported")
+				}
+				b, rerr := os.ReadFile(filepath.Join(repo, file))
+				if rerr != nil {
+					return nil, rerr
+				}
+				src = strings.Split(string(b), "\n")
+				out, pos = nil, 0
+				i++
+			}
+		case hunkRe.MatchString(l):
+			m := hunkRe.FindStringSubmatch(l)
+			start, _ := strconv.Atoi(m[1])
+			if start > 0 {
+				start--
+			}
+			// collect the hunk
+			var hunk []string
+			for i+1 < len(lines) {
+				h := lines[i+1]
+				if strings.HasPrefix(h, "@@") || strings.HasPrefix(h, "diff ") || strings.HasPrefix(h, "--- ") {
+					break
+				}
+				i++
+				hunk = append(hunk, h)
+			}
+			for len(hunk) > 0 && hunk[len(hunk)-1] == "" {
+				hunk = hunk[:len(hunk)-1]
+			}
+			var oldLines []string
+			for _, h := range hunk {
+				if strings.HasPrefix(h, "\\") || strings.HasPrefix(h, "+") {
+					continue
+				}
+				if h == "" {
+					oldLines = append(oldLines, "")
+				} else {
+					oldLines = append(oldLines, h[1:])
+				}
+			}
+			matchAt := func(at int) bool {
+				if at < pos || at+len(oldLines) > len(src) {
+					return false
+				}
+				for k, ol := range oldLines {
+					if src[at+k] != ol {
+						return false
+					}
+				}
+				return true
+			}
+			at := -1
+			for delta := 0; delta < len(src) && at < 0; delta++ {
+				if matchAt(start + delta) {
+					at = start + delta
+				} else if matchAt(start - delta) {
+					at = start - delta
+				}
+			}
+			if at < 0 {
+				return nil, fmt.Errorf("patch does not apply to %s near line %d", file, start+1)
+			}
+			out = append(out, src[pos:at]...)
+			pos = at
+			for _, h := range hunk {
+				switch {
+				case strings.HasPrefix(h, "\\"):
+				case strings.HasPrefix(h, "+"):
+					out = append(out, h[1:])
+				case strings.HasPrefix(h, "-"):
+					pos++
+				default:
+					out = append(out, src[pos])
+					pos++
+				}
+			}
+		}
+	}
+	flush()
+	if len(overlay) == 0 {
+		return nil, fmt.Errorf("no file changes in the diff")
+	}
+	return overlay, nil
+}
+
+// mutantCmd runs one property's rules on /repo with a patch applied through
+// the loader's overlay (nothing is written to the repository) and prints a
+// JSON verdict.
+func mutantCmd(args []string) int {
+	if len(args) != 3 {
+		usage()
+	}
+	prop, repo, patch := args[0], args[1], args[2]
+	res := map[string]any{"patch": patch, "property": prop}
+	defer func() {
+		b, _ := json.Marshal(res)
+		fmt.Println(string(b))
+	}()
+	pr := rules.Get(prop)
+	if pr == nil {
+		res["status"] = "unknown property"
+		return 2
+	}
+	diff, err := os.ReadFile(patch)
+	if err != nil {
+		res["status"] = "unreadable"
+		return 2
+	}
+	overlay, err := applyUnifiedDiff(repo, string(diff))
+	if err != nil {
+		res["status"] = "not-applicable"
+		res["why"] = err.Error()
+		return 0
+	}
+	p, err := an.Load(repo, an.BuildConfig{}, overlay)
+	if err != nil {
+		res["status"] = "does-not-build"
+		res["why"] = err.Error()
+		return 0
+	}
+	c := an.NewCtx(p, prop, "mutant")
+	func() {
+		defer func() {
+			if r := recover(); r != nil {
+				c.Und("engine", "panic", 0, "%v", r)
+			}
+		}()
+		pr.Run(c)
+		c.Finish()
+	}()
+	var fired []string
+	seen := map[string]bool{}
+	for _, o := range c.Obls {
+		if o.Status == an.Violation || o.Status == an.Undecided {
+			k := o.Rule + " " + o.Key
+			if !seen[k] {
+				seen[k] = true
+				fired = append(fired, k+" ["+string(o.Status)+"]")
+			}
+		}
+	}
+	sort.Strings(fired)
+	res["fired"] = fired
+	if len(fired) > 0 {
+		res["status"] = "fired"
+	} else {
+		res["status"] = "silent"
+	}
+	return 0
+}
+
+// runMutants applies every seeded change registered for the property under
+// /verif/seeded and reports which rules fire (thorough tier self-test; it does
+// not influence the verdict on /repo).
 func runMutants(pr *rules.Property, repo, verif string) map[string]any {
-	return map[string]any{"mutants": "not built yet"}
+	dirs, _ := filepath.Glob(filepath.Join(verif, "seeded", "*"))
+	sort.Strings(dirs)
+	self, _ := os.Executable()
+	var results []map[string]any
+	counts := map[string]int{}
+	known, _ := an.LoadKnown(filepath.Join(verif, "known_findings.json"))
+	for _, d := range dirs {
+		mb, err := os.ReadFile(filepath.Join(d, "meta.json"))
+		if err != nil {
+			continue
+		}
+		var meta struct {
+			Property string   `json:"property"`
+			AlsoRun  []string `json:"also_run"`
+		}
+		if json.Unmarshal(mb, &meta) != nil {
+			continue
+		}
+		match := meta.Property == pr.ID
+		for _, a := range meta.AlsoRun {
+			if a == pr.ID {
+				match = true
+			}
+		}
+		if !match {
+			continue
+		}
+		cmd := exec.Command(self, "mutant", pr.ID, repo, filepath.Join(d, "patch.diff"))
+		out, err := cmd.Output()
+		r := map[string]any{"seed": filepath.Base(d)}
+		if err != nil {
+			r["status"] = "error: " + err.Error()
+		} else {
+			var v map[string]any
+			if json.Unmarshal(lastLine(out), &v) == nil {
+				r["status"] = v["status"]
+				if f, ok := v["fired"].([]any); ok {
+					// drop known findings, which also "fire" on the unchanged tree
+					var fs []string
+					for _, x := range f {
+						s, _ := x.(string)
+						isKnown := false
+						for _, k := range known {
+							if k.Status == "known" && k.Property == pr.ID && strings.HasPrefix(s, k.Rule+" "+k.Key) {
+								isKnown = true
+							}
+						}
+						if !isKnown {
+							fs = append(fs, s)
+						}
+					}
+					r["fired"] = fs
+					if len(fs) == 0 && v["status"] == "fired" {
+						r["status"] = "silent"
+					}
+				}
+				if w, ok := v["why"]; ok {
+					r["why"] = w
+				}
+			}
+		}
+		counts[fmt.Sprint(r["status"])]++
+		results = append(results, r)
+	}
+	return map[string]any{"seeded_changes": results, "counts": counts,
+		"note": "each seeded change of /verif/seeded for this property is applied through the loader's overlay in a child process; 'fired' lists the rule instances that report it; this self-test does not affect the exit code"}
+}
+
+func lastLine(b []byte) []byte {
+	s := strings.TrimSpace(string(b))
+	if i := strings.LastIndex(s, "\n"); i >= 0 {
+		s = s[i+1:]
+	}
+	return []byte(s)
 }
